@@ -472,6 +472,7 @@ func (w *World) Exec(st Step) {
 		switch st.S {
 		case "conn":
 			w.Gw.ConnPolicy = st.Act
+			w.Gw.RefuseStatus = st.St
 		case "hb":
 			w.Gw.HbPolicy = st.Act
 			if st.St != 0 {
